@@ -184,6 +184,58 @@ def rule_F5(ctx, mod):
     ctx.need(n >= 4, f'only {n} writers of cached-from settings')
 
 
+def rule_F4_time(ctx, mod):
+    """The time vector handed to the reference transform is the one the
+    required frequencies were computed for: the vector that the reference
+    check returns (float array, times below its minimum clamped) is kept, and
+    what is stored is the instance's own array, not the caller's (a later
+    in-place change of the caller's array would leave the cached frequencies
+    behind)."""
+    cls = mod.cls('Fourier')
+    ct_ = mod.method('Fourier', '_check_time')
+    un = [n for n in ast.walk(ct_) if isinstance(n, ast.Assign) and
+          isinstance(n.targets[0], ast.Tuple) and 'check_time' in
+          ast.unparse(n.value)]
+    ctx.anchor(len(un) == 1 and len(un[0].targets[0].elts) == 4,
+               'time, freq, ft, ftarg = check_time(...) in _check_time')
+    first = ast.unparse(un[0].targets[0].elts[0])
+    kept = first != '_' and has(f'self._time = {first}', ct_)
+    ctx.check('C20.F4.handover', '_check_time keeps the checked time vector',
+              bool(kept), 'the time vector returned by the reference check is '
+              'discarded: freq_required belongs to the checked times (float '
+              'array, t < 1e-20 s clamped) while freq2time hands the raw '
+              '`time` to the transform (NaN / overflow at t = 0, lists fail)',
+              ctx.where(mod, un[0]))
+    # own copy: every store of `_time` outside _check_time is a copy, or
+    # _check_time (which the cache-coherence rule F5 requires after every
+    # such store) hands a copy to the reference check and keeps its result
+    a0 = un[0].value.args[0] if isinstance(un[0].value, ast.Call) and \
+        un[0].value.args else None
+    copied_in = isinstance(a0, ast.Call) and ast.unparse(a0.func) in (
+        'np.array', 'np.copy')
+    kept = kept and copied_in
+    n = 0
+    for m in [x for x in cls.body if isinstance(x, ast.FunctionDef)]:
+        if m is ct_:
+            continue
+        for st in ast.walk(m):
+            if isinstance(st, ast.Assign) and any(
+                    ast.unparse(t) == 'self._time' for t in st.targets):
+                n += 1
+                v = st.value
+                copy = isinstance(v, ast.Call) and (
+                    ast.unparse(v.func) in ('np.array', 'np.copy') or
+                    (isinstance(v.func, ast.Attribute) and
+                     v.func.attr == 'copy'))
+                ctx.check('C20.F4.handover', f'Fourier.{m.name}: own copy of '
+                          'the time vector', copy or kept,
+                          f'`{au.stext(st)}` keeps the caller\'s array; '
+                          'changing it in place later changes `time` but not '
+                          'the cached required frequencies / FFTLog setup',
+                          ctx.where(mod, st))
+    ctx.need(n >= 2, 'stores of _time in __init__ and the setter not found')
+
+
 def run(ctx):
     ctx.explanation = (
         'The three frequency masks are lifted as predicates of one frequency '
@@ -197,6 +249,7 @@ def run(ctx):
                        'empymod.model.tem is the reference transform']
     mod = ctx.repo.mod(TIME)
     rule_F5(ctx, mod)
+    rule_F4_time(ctx, mod)
     ext, a1, n1 = mask_table(mod, 'ifreq_extrapolate')
     itp, a2, n2 = mask_table(mod, 'ifreq_interpolate')
     cmp_, a3, n3 = mask_table(mod, 'ifreq_compute')
